@@ -30,11 +30,13 @@ def runs(tier):
         ("G(6) x U, double", [["--n", 6, "--alpha", "U"]]),
         ("edge insertion order reversed / interleaved: G(4) x A3, G(5) x A2", [["--n", 4, "--alpha", "A3", "--eorder", o] for o in (1, 2)] + [["--n", 5, "--alpha", "A2", "--eorder", o] for o in (1, 2)]),
         ("positional output iterator (begin() of a pre-sized vector instead of a back_inserter): G(4) x A3, G(5) x A2, blob grammar x M2", [["--n", 4, "--alpha", "A3", "--outiter", 1], ["--n", 5, "--alpha", "A2", "--outiter", 1], ["--grammar", "blobs:3:2", "--alpha", "M2", "--outiter", 1]]),
+        ("output iterator whose sink copies what it is assigned (boost::function_output_iterator over a callback taking a const reference): G(4) x A3, G(5) x A2", [["--n", 4, "--alpha", "A3", "--outiter", 2], ["--n", 5, "--alpha", "A2", "--outiter", 2]]),
         ("exterior weight map (associative map over a std::map while the graph's interior edge_weight property holds decoy values): G(4) x A3 double and int, G(5) x A2, 720 pseudo-random sparse graphs n=8..14 x 2 weightings",
          [["--n", 4, "--alpha", "A3", "--wmap", 1], ["--n", 4, "--alpha", "A3", "--wmap", 1, "--wtype", "int"], ["--n", 5, "--alpha", "A2", "--wmap", 1],
           ["--families", lcg_menu((8, 10, 12, 14), (1.3, 1.6, 2.0), 60), "--alpha", "R9x2", "--wmap", 1]]),
         ("other build configurations of the library (config.hpp): PARMCB_LOGGING on, PARMCB_INVARIANTS_CHECK off: G(4) x A3, G(5) x A2, G(5) x U reversed orientation",
          [[t, "--n", 4, "--alpha", "A3"] for t in ("@log", "@noinv")] + [[t, "--n", 5, "--alpha", "A2"] for t in ("@log", "@noinv")] + [["@log", "--n", 5, "--alpha", "U", "--orient", 1]]),
+        ("the library compiled as C++17 (language standard of the including translation unit; evaluation order and library behaviour differ from C++14): G(4) x A3, G(5) x A2", [["@cxx17", "--n", 4, "--alpha", "A3"], ["@cxx17", "--n", 5, "--alpha", "A2"]]),
         ("another graph type (vertex property present, edge_weight behind an edge_index property): G(4) x A3, G(5) x A2, blob grammar x M2", [["@altgraph", "--n", 4, "--alpha", "A3"], ["@altgraph", "--n", 5, "--alpha", "A2"], ["@altgraph", "--grammar", "blobs:3:2", "--alpha", "M2"]]),
         ("G(5) with at most 7 edges x PM2 (every assignment of the distinct weights 2^0..2^(m-1): unique optimum, no ties that could mask a lost candidate)", [["--n", 5, "--alpha", "PM2", "--max-m", 7]]),
         ("weights with 26 significant bits (2^25 + {1,2,3}: competing cycles differ by units at magnitude 1e8): G(4) x B3 double and int, G(5) x B2 double",
@@ -81,7 +83,8 @@ def run(prop, tier):
     # the library's other build configurations (config.hpp options): logging on; invariant checks off
     cfgbin = {"@altgraph": vlib.build("exact_altgraph", "exact.cpp", flags=vlib.BASE_FLAGS + ["-DVH_GRAPH_ALT"]),
               "@log": vlib.build("exact_cfg_log", "exact.cpp", cfg=vlib.gen_config(logging=True)),
-              "@noinv": vlib.build("exact_cfg_noinv", "exact.cpp", cfg=vlib.gen_config(invariants=False))}
+              "@noinv": vlib.build("exact_cfg_noinv", "exact.cpp", cfg=vlib.gen_config(invariants=False)),
+              "@cxx17": vlib.build("exact_cxx17", "exact.cpp", flags=vlib.CXX17_FLAGS)}
     c.builds_done()
     for bound, arglists in runs(tier):
         for args in arglists:
@@ -90,18 +93,18 @@ def run(prop, tier):
             if tag:
                 args = args[1:]
             r = vlib.run_harness(cfgbin[tag] if tag else binary, list(args) + ["--props", prop, "--seed", vlib.seed(), "--deadline-s", int(rem)])
-            c.add_run(r, bound + ((" [%s]" % tag[1:]) if tag else "") + " :: " + r["args"], classes, replay={"harness": {"@log": "exact_cfg_log", "@noinv": "exact_cfg_noinv", "@altgraph": "exact_altgraph"}.get(tag, "exact")})
+            c.add_run(r, bound + ((" [%s]" % tag[1:]) if tag else "") + " :: " + r["args"], classes, replay={"harness": {"@log": "exact_cfg_log", "@noinv": "exact_cfg_noinv", "@altgraph": "exact_altgraph", "@cxx17": "exact_cxx17"}.get(tag, "exact")})
     return c.finish()
 
 
 def replay(prop, path):
     rp = vlib.load_replay(path)
     h = (rp.get("replay") or {}).get("harness", "exact")
-    binary = vlib.build(h, "exact.cpp", flags=vlib.BASE_FLAGS + (["-DVH_GRAPH_ALT"] if h == "exact_altgraph" else []), cfg=vlib.gen_config(logging=(h == "exact_cfg_log"), invariants=(h != "exact_cfg_noinv")))
+    binary = vlib.build(h, "exact.cpp", flags=(vlib.CXX17_FLAGS if h == "exact_cxx17" else vlib.BASE_FLAGS) + (["-DVH_GRAPH_ALT"] if h == "exact_altgraph" else []), cfg=vlib.gen_config(logging=(h == "exact_cfg_log"), invariants=(h != "exact_cfg_noinv")))
     import subprocess
-    p = subprocess.run([binary, "--replay-case", rp["case"], "--props", prop], stdout=subprocess.PIPE, text=True)
+    p = subprocess.run([binary, "--replay-case", rp["case"], "--props", prop] + vlib.replay_opts(rp), stdout=subprocess.PIPE, text=True)
     print(p.stdout)
-    if "REPLAY-VIOLATION" in p.stdout:
+    if "REPLAY-VIOLATION" in p.stdout or p.returncode < 0:      # a replay that dies on a signal reproduces a crash
         print("VIOLATION property=%s replay=%s" % (prop, path))
         return 1
     return 0
